@@ -52,7 +52,7 @@ def main(src, sid, props):
         assert sh('git -C /repo apply %s' % os.path.join(out, 'patch.diff')).returncode == 0
         for p in props:
             t0 = time.time()
-            r = sh('./check %s --tier quick' % p, cwd=V)
+            r = sh('PYVC_SCRATCH_EVIDENCE=1 ./check %s --tier quick' % p, cwd=V)
             viol = [l for l in r.stdout.splitlines() if l.startswith('VIOLATION')]
             res[p] = {'exit': r.returncode, 'seconds': round(time.time() - t0, 1), 'violations': [l.split('obligation=')[-1][:160] for l in viol][:6]}
     finally:
